@@ -73,12 +73,12 @@ func parseRefCC(lines []string) refCC {
 }
 
 func genClasses(full bool) []ccClass {
-	ma := []string{"", "max-age=5", "max-age=0", "Max-Age=5", "max-age=x", "max-age=-1", "max-age=99999999999999999999", "MAX-AGE=7", `max-age="5"`, `max-age="0"`}
+	ma := []string{"", "max-age=5", "max-age=0", "Max-Age=5", "max-age=x", "max-age=-1", "max-age=99999999999999999999", "MAX-AGE=7", `max-age="5"`, `max-age="0"`, `max-age="`}
 	// the argument forms (no-cache="set-cookie": "may be reused except for that field") mark the response all the
 	// same for a cache that does not implement field-level handling
 	flags := []string{"", "no-store", "no-cache", "private", "public", "No-Store", "PRIVATE", "must-revalidate", `no-cache="set-cookie"`, `private="set-cookie"`, "no-store="}
 	if !full {
-		ma = []string{"", "max-age=5", "max-age=0", "Max-Age=5", "max-age=x", `max-age="5"`}
+		ma = []string{"", "max-age=5", "max-age=0", "Max-Age=5", "max-age=x", `max-age="5"`, `max-age="`}
 		flags = []string{"", "no-store", "no-cache", "private", "public", "No-Store", `private="set-cookie"`}
 	}
 	now := vtime.Epoch
